@@ -52,10 +52,9 @@ Lemma bytes2_loop_mono short : forall n n', (n <= n')%nat -> forall len b,
   bytes2_loop short n len b ⊑ bytes2_loop short n' len b.
 Proof.
   induction n as [|n IH]; intros n' Hn len b.
-  - cbn [bytes2_loop]. destruct n'; cbn [bytes2_loop]; destruct (take len b) as [[c r]|]; try apply le_refl;
-      destruct (len =? 0); try apply le_refl; apply le_fuel.
-  - destruct n' as [|n']; [lia|]. cbn [bytes2_loop]. destruct (take len b) as [[c r]|]; [|apply le_refl].
-    destruct (len =? 0); [apply le_refl|].
+  - cbn [bytes2_loop]. destruct n'; cbn [bytes2_loop]; destruct (len =? 0); try apply le_refl; apply le_fuel.
+  - destruct n' as [|n']; [lia|]. cbn [bytes2_loop]. destruct (len =? 0); [apply le_refl|].
+    destruct (take len b) as [[c r]|]; [|apply le_refl].
     apply le_bind; [apply le_refl|]. intros [len' r']. apply le_bind; [apply IH; lia|]. intros [bs r'']. apply le_refl.
 Qed.
 
@@ -77,7 +76,7 @@ Lemma de_body_mono utf8 (rec rec' : walker Value) n n' :
   (forall d, le_w (rec d) (rec' d)) -> (n <= n')%nat ->
   forall d b, de_body utf8 rec n d b ⊑ de_body utf8 rec' n' d b.
 Proof.
-  intros Hr Hn d b. unfold de_body. destruct (_ <? _)%nat; [apply le_refl|].
+  intros Hr Hn d b. unfold de_body, de_kind. destruct (_ <? _)%nat; [apply le_refl|].
   destruct b as [|k r]; [apply le_refl|]. destruct (kind_of_byte k) as [kd|]; [|apply le_refl].
   destruct kd as [| | |i|f| |e|e|e kk|e kk|e|]; try apply le_refl.
   - apply le_bind; [apply Hr|]. intros [v r']. apply le_refl.
@@ -164,8 +163,8 @@ Lemma bytes2_loop_len short : forall n len b bs r,
   bytes2_loop short n len b = Ok (bs, r) -> (length r <= length b)%nat.
 Proof.
   induction n as [|n IH]; intros len b bs r; cbn [bytes2_loop];
-    destruct (take len b) as [[c r0]|] eqn:E; try discriminate;
     destruct (len =? 0); try (intros H; inversion H; subst; lia); try discriminate.
+  destruct (take len b) as [[c r0]|] eqn:E; try discriminate.
   destruct (get_varint 4 r0) as [[len' r1]|] eqn:E1; cbn [bind]; [|discriminate].
   destruct (bytes2_loop short n len' r1) as [[bs' r2]|] eqn:E2; cbn [bind]; [|discriminate].
   intros H; inversion H; subst. apply take_len in E. apply get_varint_consumes in E1. apply IH in E2. lia.
@@ -190,7 +189,7 @@ Qed.
 Lemma de_body_shrinks utf8 (rec : walker Value) n :
   (forall d, shrinks (rec d)) -> forall d, shrinks (de_body utf8 rec n d).
 Proof.
-  intros Hr d b v r. unfold de_body. destruct (_ <? _)%nat; [discriminate|].
+  intros Hr d b v r. unfold de_body, de_kind. destruct (_ <? _)%nat; [discriminate|].
   destruct b as [|k b]; [discriminate|]. destruct (kind_of_byte k) as [kd|]; [|discriminate].
   cbn [length].
   destruct kd as [| | |i|f| |e|e|e kk|e kk|e|].
@@ -308,8 +307,8 @@ Lemma bytes2_loop_nofuel short : short <> Fuel -> forall n len b, (length b < n)
   bytes2_loop short n len b <> Err Fuel.
 Proof.
   intros Hshort. induction n as [|n IH]; intros len b Hn; [lia|].
-  cbn [bytes2_loop]. destruct (take len b) as [[c r]|] eqn:E; [|congruence].
-  destruct (len =? 0); [discriminate|].
+  cbn [bytes2_loop]. destruct (len =? 0); [discriminate|].
+  destruct (take len b) as [[c r]|] eqn:E; [|congruence].
   apply bind_nofuel; [apply get_varint_nofuel|]. intros [len' r'] E1.
   apply take_len in E. apply get_varint_consumes in E1.
   apply bind_nofuel; [apply IH; lia|]. intros [bs r''] _. discriminate.
@@ -332,7 +331,7 @@ Lemma de_body_nofuel utf8 (rec : walker Value) n :
   (forall d, shrinks (rec d)) -> (forall d, nofuel_upto n (rec d)) ->
   forall d b, (length b <= n)%nat -> de_body utf8 rec n d b <> Err Fuel.
 Proof.
-  intros Hs Hr d b Hb. unfold de_body. destruct (_ <? _)%nat; [discriminate|].
+  intros Hs Hr d b Hb. unfold de_body, de_kind. destruct (_ <? _)%nat; [discriminate|].
   destruct b as [|k b]; [discriminate|]. cbn [length] in Hb.
   destruct (kind_of_byte k) as [kd|]; [|discriminate].
   destruct kd as [| | |i|f| |e|e|e kk|e kk|e|]; try discriminate.
